@@ -423,6 +423,117 @@ def replay(spec, vals, pre):
     return 1
 
 
+# ----------------------------------------------------------------------------- concrete histories with includes
+INC_OK = "name inc\nversion 1.0\n\nSgate(0.5) | 0\nBSgate | [0, 1]\n"
+INC_UNDEF = "name inc\nversion 1.0\n\nSgate(0.5) | 0\nDgate(undefined_name) | 1\n"
+INC_SYNTAX = "name inc\nversion 1.0\n\nSgate(0.5 | 0\n"
+TINC = "name tinc\nversion 1.0\n\nDgate({alpha}) | 0\n"
+MAIN = 'name main\nversion 1.0\ninclude "inc.xbb"\n\ninc | [3, 4]\nVac | 5\n'
+MAIN2 = 'name other\nversion 1.0\ninclude "inc.xbb"\n\nXgate(0.25) | 1\ninc | [1, 2]\n'
+TMAIN_BAD = 'name main\nversion 1.0\ninclude "tinc.xbb"\n\ntinc(beta=0.5) | 2\n'
+TMAIN_OK = 'name main\nversion 1.0\ninclude "tinc.xbb"\n\ntinc(alpha=0.5) | 2\n'
+LOOPFAIL = "name l\nversion 1.0\n\nfloat keepme = 0.5\nfor int i in [0, 1]\n    Dgate(nope) | i\n"
+USESKEEP = "name u\nversion 1.0\ntarget X8 (shots=keepme)\n\nVac | 0\n"
+# steps: ('write', relpath, text) | ('load', relpath) | ('loads', text)
+HISTORIES = {
+    "include_fails_then_same_again": [("write", "inc.xbb", INC_UNDEF), ("write", "main.xbb", MAIN), ("load", "main.xbb"), ("load", "main.xbb")],
+    "include_fails_then_repaired": [("write", "inc.xbb", INC_UNDEF), ("write", "main.xbb", MAIN), ("load", "main.xbb"), ("write", "inc.xbb", INC_OK), ("load", "main.xbb"), ("load", "main.xbb")],
+    "include_syntax_error_then_other_script": [("write", "inc.xbb", INC_SYNTAX), ("write", "main.xbb", MAIN), ("write", "other.xbb", MAIN2), ("load", "main.xbb"),
+                                               ("write", "inc.xbb", INC_OK), ("load", "other.xbb"), ("load", "main.xbb")],
+    "include_ok_twice_and_other": [("write", "inc.xbb", INC_OK), ("write", "main.xbb", MAIN), ("write", "other.xbb", MAIN2), ("load", "main.xbb"), ("load", "other.xbb"), ("load", "main.xbb")],
+    "template_include_bad_call_then_good": [("write", "tinc.xbb", TINC), ("write", "bad.xbb", TMAIN_BAD), ("write", "good.xbb", TMAIN_OK), ("load", "bad.xbb"), ("load", "good.xbb"), ("load", "bad.xbb"), ("load", "good.xbb")],
+    "loop_body_failure_then_metadata_option": [("loads", LOOPFAIL), ("loads", USESKEEP), ("loads", LOOPFAIL), ("loads", USESKEEP)],
+    "strings_then_files": [("loads", LOOPFAIL), ("write", "inc.xbb", INC_OK), ("write", "main.xbb", MAIN), ("load", "main.xbb"), ("loads", USESKEEP)],
+}
+
+HIST_WORKER = r'''
+import sys, os, json
+sys.path.insert(0, %(root)r)
+import blackbird
+from bbverif.checks import _snap
+steps = json.loads(%(steps)r)
+root = %(dir)r
+os.chdir(root)
+out = []
+for st in steps:
+    if st[0] == "write":
+        with open(os.path.join(root, st[1]), "w") as fh:
+            fh.write(st[2])
+        continue
+    try:
+        p = blackbird.load(os.path.join(root, st[1])) if st[0] == "load" else blackbird.loads(st[1])
+        out.append(["program", repr(_snap.program(p))])
+    except Exception as e:
+        out.append(["exception", type(e).__name__, str(e).replace(root, "<dir>")])
+print("RESULT " + json.dumps(out))
+'''
+
+
+def run_history_steps(steps, pristine_each):
+    """outcomes of the load steps: in one process (history) or each load step in its own fresh process after the same writes"""
+    import json
+    import shutil
+    import subprocess
+    import tempfile
+
+    def run(sub):
+        d = tempfile.mkdtemp(prefix="bbverif_c12_")
+        try:
+            src = HIST_WORKER % {"root": common.ROOT, "steps": json.dumps(sub), "dir": d}
+            p = subprocess.run([common.PY, "-W", "ignore", "-c", src], capture_output=True, text=True, timeout=300)
+            for line in p.stdout.split("\n"):
+                if line.startswith("RESULT "):
+                    return json.loads(line[7:])
+            return [["harness", p.stderr[-300:]]]
+        finally:
+            shutil.rmtree(d, ignore_errors=True)
+
+    if not pristine_each:
+        return run(steps)
+    res = []
+    for k, st in enumerate(steps):
+        if st[0] == "write":
+            continue
+        # same files as at this point of the history, but only this one load in the process
+        writes = [s for s in steps[:k] if s[0] == "write"]
+        res.append(run(writes + [st])[-1])
+    return res
+
+
+def history_case(name):
+    steps = HISTORIES[name]
+    hist = run_history_steps(steps, False)
+    prist = run_history_steps(steps, True)
+    loads_ = [s for s in steps if s[0] != "write"]
+    for k, (a, b) in enumerate(zip(hist, prist)):
+        if a != b:
+            return {"text": "history %s: %r" % (name, [(s[0], s[1][:40]) for s in steps]), "values": [name], "pre": [],
+                    "what": "load number %d of the history has a different outcome than in a pristine process" % (k + 1),
+                    "observed": "in the history: %s" % str(a)[:300], "expected": "pristine: %s" % str(b)[:300]}
+    return None
+
+
+def run_history(name):
+    out = {"spec": ("hist", name), "result": "holds", "paths": 1, "stats": None, "funcs": [], "reach": 1, "validated": len([s for s in HISTORIES[name] if s[0] != "write"]),
+           "text": "concrete history %s" % name, "name": "history " + name}
+    r = history_case(name)
+    if r:
+        r["symbolic_what"] = r["what"]
+        out.update(result="violation", cex=r)
+    return out
+
+
+REPLAY_HIST = '''#!/usr/bin/env python
+# C12 replay of a concrete history: every load of the history vs the same load alone in a fresh process
+import sys; sys.path.insert(0, %(root)r)
+from bbverif.checks import c12
+r = c12.history_case(%(name)r)
+if r is None:
+    print("every load has its pristine outcome"); sys.exit(0)
+print(r["text"]); print(r["what"]); print(r["observed"]); print(r["expected"]); sys.exit(1)
+'''
+
+
 def static_state_scan(rep):
     """module-level mutable state of auxiliary/listener other than the two tables (AST scan, every run)"""
     found = []
@@ -457,12 +568,14 @@ def main():
         "a successful load leaves both tables empty (exitProgram clears them) - checked on the pristine runs",
         "no other module-level mutable state exists (AST scan on every run; a new one makes the check inconclusive)",
         "iteration over a havoc table yields only the entries materialised so far (under-approximation, relevant only before the first clear)",
+        "state outside the two tables (e.g. a new module-level container) is not havoc'ed: it is covered only by the concrete include/failure histories (each load vs the same load alone in a fresh process) and flagged by the AST scan",
     ]
     static_state_scan(rep)
     specs = gen_specs(t, common.seed())
-    results = U.run_parallel(run_spec, specs)
+    results = U.run_parallel(run_spec, specs) + U.run_parallel(run_history, list(HISTORIES))
     U.collect(rep, results, key_fn=lambda r: _script.default_key(r),
-              replay_fn=lambda r: REPLAY % {"root": common.ROOT, "spec": r["spec"], "vals": r["cex"]["values"], "pre": r["cex"]["pre"]},
+              replay_fn=lambda r: (REPLAY_HIST % {"root": common.ROOT, "name": r["spec"][1]}) if r["spec"][0] == "hist" else
+              REPLAY % {"root": common.ROOT, "spec": r["spec"], "vals": r["cex"]["values"], "pre": r["cex"]["pre"]},
               sample_fn=lambda r: {"script": r["text"], "paths": r["paths"], "havoc_forks": r.get("havoc_forks")})
     rep.extra["havoc_forks"] = sum(r.get("havoc_forks", 0) for r in results)
     return rep.finish()
